@@ -53,13 +53,13 @@ CHECKS = {
     "C12": c(E1, BFS + "; find/find_exact/find_lpm/view_at from EVERY view root (stored, branching, virtual) x every query (inside, covering, disjoint), mutable twins incl. the view handed back on failure",
              "DESIGN.md 3 (C12)",
              "Per state: every view obtainable by view_at over the query universe x every query x both representations; results are judged on the entries of the returned view (restriction of the model), positions for find_exact/find_lpm."),
-    "C13": c(E1 + " + " + E2, BFS + " with all value-only operations as transitions (all references held at once, distinct writes, full comparison, shape key unchanged) + pair engine for the *_mut set operations + same-map split views",
+    "C13": c(E1 + " + " + E2, BFS + " with all value-only operations as transitions (all references held at once, distinct writes, full comparison, shape key unchanged) + pair engine for the *_mut set operations + same-map split views + hold-all bodies of E7 run natively",
              "DESIGN.md 3 (C13)",
              "iter_mut, values_mut, children_mut, get_mut, get_lpm_mut, view value_mut/prefix_value_mut/iter_mut/values_mut/into_iter are transitions whose yielded sequence must equal the read-only order and whose successor must have the identical state key; union_mut/intersection_mut/difference_mut/covering_difference_mut on the pair space of C05 with writes through every reference and a full comparison of both maps."),
-    "C14": c("E1 + E2 + E4-sched + E5-programs", "three deciders: address-distinctness of all simultaneously live &mut (explorer, pair engine); shuttle DFS over ALL interleavings of workers on disjoint views with a scheduling point at every arena node write; bounded program grammar with rustc as oracle",
+    "C14": c("E1 + E2 + E4-sched + E5-programs + E7-alias", "four deciders: every small map x view root x mutable traversal / pair of maps x *_mut set operation executed by the Miri interpreter with all references held and re-written before every further library call (aliasing model as per-execution oracle over an exhaustively enumerated case list); address-distinctness of all simultaneously live &mut (explorer, pair engine); shuttle DFS over ALL interleavings of workers on disjoint views with a scheduling point at every arena node write; bounded program grammar with rustc as oracle",
              "DESIGN.md 3 (C14)",
-             "(1) every mutable traversal of every state / pair holds all references at once: addresses pairwise distinct, views from recursive split pairwise disjoint. (2) for every U2 shape and 2-3 disjoint mutable views (split, nested split, union_mut over two of three) every interleaving at node-write granularity is executed on the real code under shuttle's DFS scheduler: final map = sequential result, per-worker footprints disjoint. (3) 352 client programs (aliasing borrow patterns, consumed views, thread crossing, auto-trait matrix for Rc/Cell/MutexGuard values) must be rejected by rustc while their controls compile.",
-             TB + " Clause 2 is complete only at node-write granularity given footprint disjointness (which is checked on every schedule); clause 3 covers the listed grammar, not all safe Rust; rustc and shuttle's scheduler are trusted."),
+             "(0) 128 maps over the prefixes of length <= 2 (three construction modes) x 9 roots x 16 bodies and 32 x 32 pairs of maps x 4 *_mut set operations x 8 root pairs (7 040 cases quick, 89 728 thorough): no undefined behaviour under Stacked Borrows (thorough: and Tree Borrows) while every reference obtained so far stays in use. (1) every mutable traversal of every state / pair holds all references at once: addresses pairwise distinct, views from recursive split pairwise disjoint. (2) for every U2 shape and 2-3 disjoint mutable views (split, nested split, union_mut over two of three) every interleaving at node-write granularity is executed on the real code under shuttle's DFS scheduler: final map = sequential result, per-worker footprints disjoint. (3) 352 client programs (aliasing borrow patterns, consumed views, thread crossing, auto-trait matrix for Rc/Cell/MutexGuard values) must be rejected by rustc while their controls compile.",
+             TB + " Clause 2 is complete only at node-write granularity given footprint disjointness (which is checked on every schedule); clause 3 covers the listed grammar, not all safe Rust; rustc and shuttle's scheduler are trusted. Clause 0 is bounded by its universe and judged by the (experimental) aliasing models of the pinned nightly Miri, which is trusted."),
     "C15": c(E1, BFS + "; structural invariants on the arena dump after every transition; recursive walk through the public view API per state tied to the dump; canonical-alphabet exploration compared with freshly built maps",
              "DESIGN.md 3 (C15)",
              "(a) every transition of the full alphabet: root is /0, children strictly longer / covered / on the side of their bit, no sharing, depth bounded. (b) exploration restricted to the canonical sub-alphabet: exactly 2^|K| shapes, each identical to a map freshly built (two insertion orders) from the surviving keys, value-less non-root nodes have two children. (c) remove_keep_tree, entry and view value operations leave the node set and links unchanged."),
@@ -91,8 +91,9 @@ ENGINES = [
     {"name": "E3-algebra", "path": "harness/src/algebra.rs", "serves_properties": ["C17", "C20"], "kind_free_text": "exhaustive/structured enumeration of prefix values and pairs for all 14 prefix types"},
     {"name": "E4-sched", "path": "sched/src/main.rs", "serves_properties": ["C14"], "kind_free_text": "shuttle DFS scheduler over worker threads on disjoint mutable views; the access hook turns every node write into a scheduling point"},
     {"name": "E5-programs", "path": "programs.py", "serves_properties": ["C14"], "kind_free_text": "bounded grammar of client programs compiled with rustc against the freshly built rlib; reject/accept oracle with controls"},
+    {"name": "E7-alias", "path": "alias.py, alias/src/main.rs", "serves_properties": ["C13", "C14"], "kind_free_text": "exhaustive case list (small maps x view roots x mutable traversals, pairs x *_mut set operations) of bodies that hold every reference and keep writing through it; executed natively with a functional oracle (C13) and by cargo +nightly miri with Stacked/Tree Borrows as aliasing oracle (C14); no hooks"},
 ]
 
 NOTES = ("All checks rebuild the harness against /repo's working tree (path dependency with feature verif-hooks). "
-         "Exit 2 / MACHINERY-ERROR is never a verdict. Known findings live in KNOWN_FINDINGS.txt (eight upstream defects, all repaired by fix: commits). "
+         "Exit 2 / MACHINERY-ERROR is never a verdict. Known findings live in KNOWN_FINDINGS.txt (nine upstream defects, all repaired by fix: commits). "
          "seeded/ holds independently written property-breaking changes with the checks that catch them.")
